@@ -36,20 +36,86 @@ const SEGS: &[&str] = &["", "a", "b", ".", "..", "b:c", "1:c", "é", "%2F", "%2e
 const QUERIES: &[&str] = &["", "q", "a:b/c?d", "x=1&y=2", "é", "\u{E000}", "%3F", "/?", "a#b", "%", "\u{FFFE}"];
 const FRAGS: &[&str] = &["", "f", "a/b?c", "x?y/z:@", "é", "%23", "\u{E000}", "x\u{F0000}y", "a#b", "%2"];
 
-fn pick<'a>(r: &mut StdRng, v: &'a [&'a str]) -> &'a str {
-	v.choose(r).unwrap()
+/// A value for a component: from its vocabulary (values chosen to matter), or - about one time
+/// in three - drawn from the CHARACTER CLASSES of the component's production, with a length that
+/// is mostly small and sometimes sits on a power of two (so that no behaviour can hide behind
+/// "a value the testers did not think of": a particular scheme name, hex digit, pair of
+/// neighbouring characters, port of more than n digits, component longer than an inline buffer).
+fn pick(r: &mut StdRng, v: &'static [&'static str]) -> String {
+	let class = if std::ptr::eq(v, SEGS) { 1 } else if std::ptr::eq(v, QUERIES) { 2 } else if std::ptr::eq(v, FRAGS) { 3 }
+		else if std::ptr::eq(v, USERS) { 4 } else if std::ptr::eq(v, HOSTS) { 5 } else if std::ptr::eq(v, PORTS) { 6 }
+		else if std::ptr::eq(v, SCHEMES) { 7 } else { 0 };
+	if class == 0 || !r.gen_bool(0.3) {
+		return v.choose(r).unwrap().to_string();
+	}
+	const NAMES: &[&str] = &["http", "https", "file", "urn", "mailto", "data", "ftp", "ws", "wss", "about", "tag", "tel", "git+ssh", "view-source", "z39.50r", "HTTP", "File"];
+	if class == 7 {
+		if r.gen_bool(0.5) {
+			return NAMES.choose(r).unwrap().to_string();
+		}
+		let n = class_len(r);
+		let mut s = String::new();
+		s.push(*b"abcdefghijklmnopqrstuvwxyzABCDEFGHIJKLMNOPQRSTUVWXYZ".choose(r).unwrap() as char);
+		for _ in 1..n.max(1) { s.push(*b"abcdefghijklmnopqrstuvwxyzABCDEFGHIJKLMNOPQRSTUVWXYZ0123456789+-.".choose(r).unwrap() as char); }
+		return s;
+	}
+	if class == 6 {
+		// ports: any number of digits (beyond u16, u32, u64), leading zeros
+		let n = *[0usize, 1, 2, 4, 5, 5, 6, 10, 11, 20, 21, 40].choose(r).unwrap();
+		return (0..n).map(|_| (b'0' + r.gen_range(0..10)) as char).collect();
+	}
+	if class == 5 && r.gen_bool(0.4) {
+		// an IP literal or IPv4 address with random digits
+		let hex = |r: &mut StdRng| { let d = r.gen_range(1..=4); (0..d).map(|_| *b"0123456789abcdefABCDEF".choose(r).unwrap() as char).collect::<String>() };
+		let left = r.gen_range(0..8);
+		let right = r.gen_range(0..(8 - left));
+		return match r.gen_range(0..3) {
+			0 => format!("[{}::{}]", (0..left).map(|_| hex(r)).collect::<Vec<_>>().join(":"), (0..right).map(|_| hex(r)).collect::<Vec<_>>().join(":")),
+			1 => format!("{}.{}.{}.{}", r.gen_range(0..256), r.gen_range(0..256), r.gen_range(0..256), r.gen_range(0..256)),
+			_ => format!("[v{}.{}]", hex(r), (0..r.gen_range(1..12)).map(|_| *b"abcXYZ019-._~!$&'()*+,;=:".choose(r).unwrap() as char).collect::<String>()),
+		};
+	}
+	const UNRESERVED: &[u8] = b"ABCDEFGHIJKLMNOPQRSTUVWXYZabcdefghijklmnopqrstuvwxyz0123456789-._~";
+	const SUB_DELIMS: &[u8] = b"!$&'()*+,;=";
+	const HEX: &[u8] = b"0123456789ABCDEFabcdef";
+	const UCS: &[char] = &['\u{a0}', '\u{e9}', '\u{ff}', '\u{3000}', '\u{d7ff}', '\u{f900}', '\u{feff}', '\u{ffef}', '\u{10000}', '\u{1f600}', '\u{efffd}'];
+	let n = class_len(r);
+	let mut s = String::new();
+	for _ in 0..n {
+		match r.gen_range(0..100) {
+			0..=49 => s.push(*UNRESERVED.choose(r).unwrap() as char),
+			50..=61 => s.push(*SUB_DELIMS.choose(r).unwrap() as char),
+			62..=69 => match class { 1 => s.push(*b":@".choose(r).unwrap() as char), 2 | 3 => s.push(*b":@/?".choose(r).unwrap() as char), 4 => s.push(':'), _ => s.push('-') },
+			70..=81 => { s.push('%'); s.push(*HEX.choose(r).unwrap() as char); s.push(*HEX.choose(r).unwrap() as char); }
+			82..=91 => s.push(*UCS.choose(r).unwrap()),
+			92..=94 if class == 2 => s.push(*['\u{e000}', '\u{f8ff}', '\u{f0000}', '\u{10fffd}'].choose(r).unwrap()),
+			_ => s.push(*b".-_~".choose(r).unwrap() as char),
+		}
+	}
+	s
+}
+
+/// mostly small; sometimes on or next to a power of two
+fn class_len(r: &mut StdRng) -> usize {
+	match r.gen_range(0..1000) {
+		0..=699 => r.gen_range(0..13),
+		700..=899 => r.gen_range(13..41),
+		900..=969 => { let k = *[32usize, 64].choose(r).unwrap(); k - 2 + r.gen_range(0..5) }
+		970..=994 => { let k = *[128usize, 256].choose(r).unwrap(); k - 2 + r.gen_range(0..5) }
+		_ => { let k = *[512usize, 1024].choose(r).unwrap(); k - 2 + r.gen_range(0..5) }
+	}
 }
 
 fn gen_authority(r: &mut StdRng) -> String {
 	let mut a = String::new();
 	if r.gen_bool(0.4) {
-		a.push_str(pick(r, USERS));
+		a.push_str(&pick(r, USERS));
 		a.push('@');
 	}
-	a.push_str(pick(r, HOSTS));
+	a.push_str(&pick(r, HOSTS));
 	if r.gen_bool(0.4) {
 		a.push(':');
-		a.push_str(pick(r, PORTS));
+		a.push_str(&pick(r, PORTS));
 	}
 	a
 }
@@ -58,7 +124,7 @@ fn gen_path(r: &mut StdRng, abs: bool) -> String {
 	// mostly short; sometimes beyond 16 segments; sometimes beyond 512 bytes (the inline buffers)
 	// mostly short; sometimes beyond 16 segments; now and then beyond 512 bytes (the inline buffers),
 	// made of long segments so that the text stays cheap for TLC to judge
-	const LONG: &[&str] = &["longer-segment-name-0123456789", "another.long~segment_ABCDEFGHIJKLMNOP", "ééééééééééééééé", "%2E%2E-is-not-a-dot-segment", "x;p=1;q=2;r=3;s=4;t=5"];
+	const LONG: &'static [&'static str] = &["longer-segment-name-0123456789", "another.long~segment_ABCDEFGHIJKLMNOP", "ééééééééééééééé", "%2E%2E-is-not-a-dot-segment", "x;p=1;q=2;r=3;s=4;t=5"];
 	let (n, long) = match r.gen_range(0..100) { 0..=6 => (r.gen_range(15..40), false), 7..=9 => (r.gen_range(24..32), true), _ => (r.gen_range(0..5), false) };
 	let mut p = String::new();
 	if abs {
@@ -69,9 +135,9 @@ fn gen_path(r: &mut StdRng, abs: bool) -> String {
 			p.push('/');
 		}
 		if long && !r.gen_bool(0.25) {
-			p.push_str(pick(r, LONG));
+			p.push_str(&pick(r, LONG));
 		} else {
-			p.push_str(pick(r, SEGS));
+			p.push_str(&pick(r, SEGS));
 		}
 	}
 	p
@@ -81,7 +147,7 @@ fn gen_ref(r: &mut StdRng) -> String {
 	let mut s = String::new();
 	let has_scheme = r.gen_bool(0.6);
 	if has_scheme {
-		s.push_str(pick(r, SCHEMES));
+		s.push_str(&pick(r, SCHEMES));
 		s.push(':');
 	}
 	let has_auth = r.gen_bool(0.5);
@@ -98,11 +164,11 @@ fn gen_ref(r: &mut StdRng) -> String {
 	}
 	if r.gen_bool(0.4) {
 		s.push('?');
-		s.push_str(pick(r, QUERIES));
+		s.push_str(&pick(r, QUERIES));
 	}
 	if r.gen_bool(0.4) {
 		s.push('#');
-		s.push_str(pick(r, FRAGS));
+		s.push_str(&pick(r, FRAGS));
 	}
 	s
 }
@@ -333,7 +399,8 @@ macro_rules! auth_event {
 }
 
 macro_rules! parse_event {
-	($out:ident, $n:ident, $w:ident, $tag:expr, $T:ty, $scheme:expr) => {{
+	($out:ident, $n:ident, $w:ident, $tag:expr, $T:ty, $scheme:expr) => { parse_event!($out, $n, $w, $tag, $T, $scheme, "random") };
+	($out:ident, $n:ident, $w:ident, $tag:expr, $T:ty, $scheme:expr, $src:expr) => {{
 		let r = guard(|| <$T>::new($w).ok().map(|v| {
 			let sch: Option<String> = $scheme(v);
 			json!({"scheme": enc_opt(sch.as_deref()), "authority": enc_opt(v.authority().map(|x| x.as_str())),
@@ -341,9 +408,9 @@ macro_rules! parse_event {
 				"fragment": enc_opt(v.fragment().map(|x| x.as_str()))})
 		}));
 		let ev = match r {
-			Ok(Some(p)) => json!({"ev": "parse", "ty": $tag, "w": enc($w), "ok": true, "panic": false, "p": p}),
-			Ok(None) => json!({"ev": "parse", "ty": $tag, "w": enc($w), "ok": false, "panic": false, "p": {}}),
-			Err(m) => json!({"ev": "parse", "ty": $tag, "w": enc($w), "ok": false, "panic": true, "p": {}, "msg": m}),
+			Ok(Some(p)) => json!({"ev": "parse", "src": $src, "ty": $tag, "w": enc($w), "ok": true, "panic": false, "p": p}),
+			Ok(None) => json!({"ev": "parse", "src": $src, "ty": $tag, "w": enc($w), "ok": false, "panic": false, "p": {}}),
+			Err(m) => json!({"ev": "parse", "src": $src, "ty": $tag, "w": enc($w), "ok": false, "panic": true, "p": {}, "msg": m}),
 		};
 		writeln!($out, "{ev}").unwrap();
 		$n += 1;
@@ -365,6 +432,64 @@ fn main_parse(args: &[String]) {
 	let mut out = std::io::LineWriter::new(File::create(&args[4]).expect("create events"));
 	let mut r = StdRng::seed_from_u64(seed);
 	let mut count = 0u64;
+	// ---- length sweep (C02): each component in turn takes every length 0..=140 and the lengths
+	// ---- around 256, 512, 1024, 4096 while the others stay short; read through the individual
+	// ---- accessors of the four types
+	{
+		let lens: Vec<usize> = (0..=140usize).chain(254..=258).chain(510..=514).chain(1022..=1026).chain(4094..=4098).chain(65534..=65538).collect();
+		for kind in 0..8 {
+			for &l in &lens {
+				let fill = |c: char, l: usize| -> String { std::iter::repeat(c).take(l).collect() };
+				let w = match kind {
+					0 if l > 0 => format!("s{}://u@h:8/p/seg?q#f", fill('a', l - 1)),
+					1 => format!("s://{}@h:8/p/seg?q#f", fill('u', l)),
+					2 => format!("s://u@{}:8/p/seg?q#f", fill('h', l)),
+					3 => format!("s://u@h:{}/p/seg?q#f", fill('7', l)),
+					4 => format!("s://u@h:8/{}/seg?q#f", fill('p', l)),
+					5 => format!("s://u@h:8/p/{}?q#f", fill('g', l)),
+					6 => format!("s://u@h:8/p/seg?{}#f", fill('q', l)),
+					7 => format!("s://u@h:8/p/seg?q#{}", fill('f', l)),
+					_ => continue,
+				};
+				let w = w.as_str();
+				if l > 300 {
+					// too long for TLC to take apart: the byte ranges of what the accessors return are
+					// recorded and judged by arithmetic on the lengths (Trace_Events.SweepBigConforms)
+					macro_rules! ranges {
+						($T:ty, $tag:expr, |$v:ident| $scheme:expr) => {{
+							let tb = w.as_bytes();
+							let off = |x: Option<&[u8]>| -> serde_json::Value { match x { Some(x) => json!([(x.as_ptr() as usize).wrapping_sub(tb.as_ptr() as usize), x.len()]), None => json!([-1, -1]) } };
+							let r = guard(|| <$T>::new(w).ok().map(|$v| {
+								let v = $v;
+								let sch: Option<&[u8]> = $scheme;
+								json!({"scheme": off(sch), "authority": off(v.authority().map(|x| x.as_bytes())), "path": off(Some(v.path().as_bytes())),
+									"query": off(v.query().map(|x| x.as_bytes())), "fragment": off(v.fragment().map(|x| x.as_bytes())),
+									"userinfo": off(v.authority().and_then(|a| a.user_info()).map(|x| x.as_bytes())), "host": off(v.authority().map(|a| a.host().as_bytes())),
+									"port": off(v.authority().and_then(|a| a.port()).map(|x| x.as_bytes())),
+									"last": off(v.path().segments().next_back().map(|x| x.as_bytes()))})
+							}));
+							let ev = match r {
+								Ok(Some(p)) => json!({"ev": "sweep_big", "ty": $tag, "kind": kind, "l": l, "ok": true, "panic": false, "r": p}),
+								Ok(None) => json!({"ev": "sweep_big", "ty": $tag, "kind": kind, "l": l, "ok": false, "panic": false, "r": {}}),
+								Err(m) => json!({"ev": "sweep_big", "ty": $tag, "kind": kind, "l": l, "ok": false, "panic": true, "r": {}, "msg": m}),
+							};
+							writeln!(out, "{ev}").unwrap();
+							count += 1;
+						}};
+					}
+					ranges!(iref::iri::IriRef, "IriRef", |v| v.scheme().map(|x| x.as_bytes()));
+					ranges!(iref::iri::Iri, "Iri", |v| Some(v.scheme().as_bytes()));
+					ranges!(iref::uri::UriRef, "UriRef", |v| v.scheme().map(|x| x.as_bytes()));
+					ranges!(iref::uri::Uri, "Uri", |v| Some(v.scheme().as_bytes()));
+					continue;
+				}
+				parse_event!(out, count, w, "IriRef", iref::iri::IriRef, |v: &iref::iri::IriRef| v.scheme().map(|x| x.as_str().to_string()), "sweep");
+				parse_event!(out, count, w, "Iri", iref::iri::Iri, |v: &iref::iri::Iri| Some(v.scheme().as_str().to_string()), "sweep");
+				parse_event!(out, count, w, "UriRef", iref::uri::UriRef, |v: &iref::uri::UriRef| v.scheme().map(|x| x.as_str().to_string()), "sweep");
+				parse_event!(out, count, w, "Uri", iref::uri::Uri, |v: &iref::uri::Uri| Some(v.scheme().as_str().to_string()), "sweep");
+			}
+		}
+	}
 	for i in 0..n {
 		let base = gen_ref(&mut r);
 		let w: String = match i % 4 {
@@ -656,6 +781,36 @@ fn main_big(args: &[String]) {
 			};
 			writeln!(out, "{ev}").unwrap();
 			count += 1;
+		}
+	}
+	// ---- resolution with ONE very long segment (C06): in a reference with its own scheme, in a
+	// ---- merged reference, and in the directory of the base
+	for n in [100usize, 65535, 65536, 70000, 300000] {
+		let big: String = std::iter::repeat('a').take(n).collect();
+		for (case, base, reference) in [
+			("own", "s://h/p/q".to_string(), format!("t:/x/../{big}/./z")),
+			("merge", "s://h/p/q".to_string(), format!("../{big}/./z")),
+			("basedir", format!("s://h/{big}/q"), "./z".to_string()),
+		] {
+			for fam in ["iri", "uri"] {
+				pending(&json!({"ev": "big_resolve", "fam": fam, "case": case, "n": n, "panic": true, "msg": "process aborted"}));
+				let r = guard(|| {
+					let res: Vec<u8> = if fam == "iri" {
+						iref::iri::IriRef::new(reference.as_str()).unwrap().resolved(iref::iri::Iri::new(base.as_str()).unwrap()).into_string().into_bytes()
+					} else {
+						iref::uri::UriRef::new(reference.as_str()).unwrap().resolved(iref::uri::Uri::new(base.as_str()).unwrap()).into_bytes()
+					};
+					let head: Vec<u32> = res.iter().take(8).map(|b| *b as u32).collect();
+					let tail: Vec<u32> = res.iter().skip(res.len().saturating_sub(8)).map(|b| *b as u32).collect();
+					(res.len(), head, tail, res.iter().filter(|b| **b == b'a').count())
+				});
+				let ev = match r {
+					Ok((len, head, tail, na)) => json!({"ev": "big_resolve", "fam": fam, "case": case, "n": n, "panic": false, "len": len, "head": head, "tail": tail, "count_a": na}),
+					Err(m) => json!({"ev": "big_resolve", "fam": fam, "case": case, "n": n, "panic": true, "msg": m}),
+				};
+				writeln!(out, "{ev}").unwrap();
+				count += 1;
+			}
 		}
 	}
 	// ---- percent-decoded view of a very long segment (C19), before and after the reference went
